@@ -6,4 +6,5 @@ export GOFLAGS=-mod=mod GOPROXY=off GOSUMDB=off GOTOOLCHAIN=local GOWORK=off
 mkdir -p "$HERE/bin" "$HERE/evidence" "$HERE/replays"
 cd "$HERE/mc"
 go build -o "$HERE/bin/verif" ./cmd/verif
+VERIF_DIR="$HERE" "$HERE/bin/verif" warm
 echo "setup ok"
